@@ -37,7 +37,7 @@ def fh(h, col, comp=0):
     return (np.asarray(h, dtype=np.float64) * 37.0 + base * 1000003.0 + comp * 0.25) / 1024.0
 
 
-def make_dir(rng, nslab, order, want_ranks, mt, halos_per_slab, scalar_vdev=False, physical=False, idbase=0, z=0.5, no_particles=False, lc=False, short_ranks=False):
+def make_dir(rng, nslab, order, want_ranks, mt, halos_per_slab, scalar_vdev=False, physical=False, idbase=0, z=0.5, no_particles=False, lc=False, short_ranks=False, zero_r25=False):
     root = tempfile.mkdtemp(prefix='verif_hod_')
     sim = 'SimH'
     hdir = os.path.join(root, 'sims', sim, 'halos', 'z%4.3f' % z, 'halo_info')
@@ -79,6 +79,7 @@ def make_dir(rng, nslab, order, want_ranks, mt, halos_per_slab, scalar_vdev=Fals
     if short_ranks:
         pdt = [f for f in pdt if f[0] not in ('ranksp', 'ranksr', 'ranksc')]  # older subsample files carry only ranks and ranksv
     off = 0
+    zero_ids = []
     truth = dict(slabs=[], root=root)
     pserial = 0
     for s in range(nslab):
@@ -98,6 +99,9 @@ def make_dir(rng, nslab, order, want_ranks, mt, halos_per_slab, scalar_vdev=Fals
         h['sigmav3d_L2com'] = fh(hid, 'sig')
         h['r98_L2com'] = fh(hid, 'r98')
         h['r25_L2com'] = fh(hid, 'r25')
+        if zero_r25 and H:
+            h['r25_L2com'][:: max(2, H // 3)] = 0.0  # a vanishing inner radius: the concentration r98/r25 of that halo is +inf (that is what the division gives)
+            zero_ids.extend(int(x) for x in hid[:: max(2, H // 3)])
         h['N'] = ((hid - np.int64(idbase)) % 100000) + 50
         h['deltac_rank'] = fh(hid, 'dc')
         h['fenv_rank'] = fh(hid, 'fe')
@@ -160,7 +164,7 @@ def make_dir(rng, nslab, order, want_ranks, mt, halos_per_slab, scalar_vdev=Fals
         with h5py.File(pf, 'w') as f:
             f.create_dataset('particles', data=p)
         truth['slabs'].append(dict(h=h, p=p))
-    truth.update(sim=sim, sim_dir=os.path.join(root, 'sims'), subsample_dir=os.path.join(root, 'subs'), out=os.path.join(root, 'out'), halos_per_slab=halos_per_slab, z=z, lc=lc)
+    truth.update(sim=sim, sim_dir=os.path.join(root, 'sims'), subsample_dir=os.path.join(root, 'subs'), out=os.path.join(root, 'out'), halos_per_slab=halos_per_slab, z=z, lc=lc, zero_r25_ids=zero_ids)
     return truth
 
 
@@ -188,6 +192,14 @@ def stub_histogram(AH):
         yield
     finally:
         AH.np = real_np
+
+
+def _hc_expected(hid, truth):
+    r25 = np.asarray(fh(hid, 'r25'), dtype=np.float32)
+    if truth.get('zero_r25_ids'):
+        r25 = np.where(np.isin(hid, np.array(truth['zero_r25_ids'], dtype=np.int64)), np.float32(0), r25)
+    with np.errstate(divide='ignore', invalid='ignore'):
+        return (np.float32(1) * np.asarray(fh(hid, 'r98'), dtype=np.float32) / r25).astype(np.float64)
 
 
 def f32(x):
@@ -275,7 +287,7 @@ def stage_and_check(run, AH, truth, flags, tracers, chunk, n_chunks, desc):
         'hmultis': f32(fh(hid, 'multi')),
         'hrandoms': f32(fh(hid, 'rnd')),
         'hsigma3d': f32(fh(hid, 'sig')),
-        'hc': (np.float32(1) * np.asarray(fh(hid, 'r98'), dtype=np.float32) / np.asarray(fh(hid, 'r25'), dtype=np.float32)).astype(np.float64),
+        'hc': _hc_expected(hid, truth),
         'hrvir': f32(fh(hid, 'r98')),
     }
     if flags.get('want_AB'):
@@ -293,7 +305,7 @@ def stage_and_check(run, AH, truth, flags, tracers, chunk, n_chunks, desc):
         run.count('halo_values_checked', g.size)
         if g.shape != e.shape:
             return run.violation('staging-shape', dict(column=col, got=list(g.shape), **desc))
-        ok = np.isclose(g, e, rtol=1e-6, atol=0)
+        ok = np.isclose(g, e, rtol=1e-6, atol=0, equal_nan=True)
         if not ok.all():
             i = int(np.argwhere(~ok)[0][0])
             # whose value is it?
@@ -353,6 +365,8 @@ def check(run):
         nslab = int(rng.integers(1, 7))
         order = orders[k % 4]
         hps = [int(rng.integers(1, 40)) for _ in range(nslab)]
+        if k % 5 == 4:
+            hps = [int(rng.integers(150, 420)) for _ in range(nslab)]  # several hundred to a couple of thousand halos in all (beyond 256, 512, 1024 rows)
         if k % 5 == 2 and nslab > 1:
             hps[int(rng.integers(0, nslab))] = 1  # an almost empty slab
         flags = dict(want_AB=bool(k % 2), want_shear=bool((k // 2) % 2), want_ranks=bool((k // 4) % 2), want_expvel=bool((k // 3) % 2))
@@ -374,7 +388,7 @@ def check(run):
             nslab, hps, order = 1, [int(rng.integers(2, 60))], ['random', 'decreasing'][k // 11 % 2]
         short_ranks = flags['want_ranks'] and k % 3 == 2
         force_mt = (not mt) and k % 4 == 3  # LRG only, but told to use the multi-tracer subsample files
-        truth = make_dir(rng, nslab, order, flags['want_ranks'], mt or force_mt, hps, scalar_vdev=scalar_vdev, idbase=idbase, z=zmock, no_particles=nopart, lc=lc, short_ranks=short_ranks)
+        truth = make_dir(rng, nslab, order, flags['want_ranks'], mt or force_mt, hps, scalar_vdev=scalar_vdev, idbase=idbase, z=zmock, no_particles=nopart, lc=lc, short_ranks=short_ranks, zero_r25=(k % 7 == 2))
         try:
             chunkings = [(-1, 1)]
             if nslab >= 2 and k % 3 == 0:
@@ -386,7 +400,7 @@ def check(run):
                 c = 0 if chunk == -1 else chunk
                 if c * n_jump >= nslab:
                     continue
-                desc = dict(case=k, nslab=nslab, order=order, halos_per_slab=truth['halos_per_slab'], chunk=chunk, n_chunks=nch, tracers=list(tracers), scalar_vdev=scalar_vdev, z_mock=zmock, empty_particle_files=nopart, light_cone=lc, short_rank_columns=short_ranks, force_mt=force_mt, log_level=('DEBUG' if k % 3 == 1 else 'off'), **flags)
+                desc = dict(case=k, nslab=nslab, order=order, halos_per_slab=truth['halos_per_slab'], chunk=chunk, n_chunks=nch, tracers=list(tracers), scalar_vdev=scalar_vdev, z_mock=zmock, empty_particle_files=nopart, light_cone=lc, short_rank_columns=short_ranks, force_mt=force_mt, log_level=('DEBUG' if k % 3 == 1 else 'off'), halos_with_zero_r25=(k % 7 == 2), **flags)
                 if k < 3:
                     run.sample(desc)
                 stage_and_check(run, AH, truth, flags, tracers, chunk, nch, desc)
